@@ -19,6 +19,7 @@ import (
 	"bytes"
 	"context"
 	"crypto/sha256"
+	"encoding/asn1"
 	"fmt"
 	"strings"
 	"sync"
@@ -46,8 +47,14 @@ func runDkgStep(r *prng.R, s *out.Sink, tier string) {
 		kind := []string{"bls", "ps"}[i%2]
 		n := 2 + r.Intn(4)
 		t := 2 + r.Intn(n-1)
-		if !dkgStepRun(kind, r, s, n, t, 1+r.Intn(2), i%4 == 0) {
-			return
+		// one run in four fault-free, one in four with exactly one substituted share / commitment / key and nothing else
+		// wrong (so that the run goes all the way to the verdict), the rest a random mix
+		scenario := []string{"honest", "one-share", "mix", "mix", "honest", "one-reveal", "mix", "one-commit", "honest", "one-share", "mix", "mix"}[i%12]
+		if scenario == "one-share" && n == t && n < 5 {
+			n++ // the cross-check needs t < n
+		}
+		if !dkgStepRun(kind, r, s, n, t, 1+r.Intn(2), scenario) {
+			s.Count("dkg/abandoned-run")
 		}
 	}
 }
@@ -104,7 +111,10 @@ func (w *stepWorld) route(from uint16, msg []byte, bcast bool, to uint16, partie
 	}
 }
 
-func dkgStepRun(kind string, r *prng.R, s *out.Sink, n, t, msgLen int, honest bool) bool {
+func dkgStepRun(kind string, r *prng.R, s *out.Sink, n, t, msgLen int, scenario string) bool {
+	honest := scenario != "mix"
+	oneKind := map[string]byte{"one-share": 1, "one-commit": 2, "one-reveal": 3}[scenario]
+	oneDone := false
 	dkgStepInst++
 	inst := dkgStepInst
 	parties := make([]uint16, n)
@@ -133,7 +143,7 @@ func dkgStepRun(kind string, r *prng.R, s *out.Sink, n, t, msgLen int, honest bo
 		s.Op(k, true, op, ans)
 		hist = append(hist, op+"   => "+ans)
 	}
-	desc := fmt.Sprintf("%s n=%d t=%d party under test %d", kind, n, t, V)
+	desc := fmt.Sprintf("%s n=%d t=%d party under test %d scenario %s", kind, n, t, V, scenario)
 	ctx, cancel := context.WithCancel(context.Background())
 	pctx, pcancel := context.WithTimeout(context.Background(), 20*time.Second)
 	results := map[uint16][]byte{}
@@ -197,7 +207,7 @@ func dkgStepRun(kind string, r *prng.R, s *out.Sink, n, t, msgLen int, honest bo
 	// bookkeeping of what the victim has stored (first well-formed value per sender and kind)
 	stored := map[string]bool{}
 	storedCommits := 0
-	tamperedFirst := false // a substituted share or key was the first of its sender to arrive
+	tamperedFirst := false    // a substituted share or key was the first of its sender to arrive
 	mismatchFrom := uint16(0) // a sender whose recorded commitment and recorded key cannot match (one of them was substituted)
 	revealedAtCommits := -1
 	// the start: shares go out, then the first park
@@ -336,6 +346,17 @@ func dkgStepRun(kind string, r *prng.R, s *out.Sink, n, t, msgLen int, honest bo
 		if !honest {
 			choice = r.Intn(12)
 		}
+		if oneKind != 0 && !oneDone && len(m.data) > 0 && m.data[0] == oneKind {
+			// the single deviation of this run - once another participant's value of the same kind is known
+			have := len(honestShare)
+			if oneKind == 3 {
+				have = len(honestReveal)
+			}
+			if oneKind == 2 || have >= 2 {
+				choice = 2
+				oneDone = true
+			}
+		}
 		okRun := true
 		switch choice {
 		case 1: // a duplicate of something delivered earlier, then the message
@@ -366,10 +387,28 @@ func dkgStepRun(kind string, r *prng.R, s *out.Sink, n, t, msgLen int, honest bo
 				}
 				sub.data = b2(2, c)
 			case len(m.data) > 0 && m.data[0] == 1:
-				// another participant's share: well-formed, off this sender's polynomial
+				// another participant's share: well-formed, off this sender's polynomial - as a whole, or (PS) in its x
+				// component only, or in a single y component only
 				for p, sh := range honestShare {
 					if p != m.from {
 						sub.data = b2(1, sh)
+						if kind == "ps" {
+							var mine, other ps.XYs
+							if _, e1 := asn1.Unmarshal(m.data[1:], &mine); e1 == nil {
+								if _, e2 := asn1.Unmarshal(sh, &other); e2 == nil && len(mine.Ys) == len(other.Ys) && len(mine.Ys) > 0 {
+									switch r.Intn(3) {
+									case 0:
+										mine.X = other.X
+										sub.data = b2(1, remarshal(mine))
+									case 1:
+										i := r.Intn(len(mine.Ys))
+										mine.Ys = append([][]byte{}, mine.Ys...)
+										mine.Ys[i] = other.Ys[i]
+										sub.data = b2(1, remarshal(mine))
+									}
+								}
+							}
+						}
 					}
 				}
 			case len(m.data) > 0 && m.data[0] == 3:
@@ -397,7 +436,13 @@ func dkgStepRun(kind string, r *prng.R, s *out.Sink, n, t, msgLen int, honest bo
 			default:
 				j.data = []byte{0}
 			}
+			// is it, by accident, a well-formed key after all? (random bytes of the right length can be a compressed point)
 			wf := false
+			if kind == "bls" && len(j.data) > 1 && j.data[0] == 3 {
+				if _, err := bls.VerifCurve().NewG2FromBytes(j.data[1:]); err == nil {
+					wf = true
+				}
+			}
 			okRun = deliver(j, "junk-or-malformed", wf)
 			if okRun && !finished {
 				okRun = deliver(m, "as-sent", true)
